@@ -52,7 +52,7 @@ SIGNATURES = {}
 
 FEAT = gen.Feat(items=True, uncached=True, fail=True, max_top=2, max_child=1, max_cells=4, max_rank=5, depth=2,
                 tick=True, shadow=False, objrefs=False)
-KINDS = ["ZeroDivisionError", "KeyError", "ValueError", "HarnessError", "HarnessAbort", "None"]
+KINDS = ["ZeroDivisionError", "KeyError", "ValueError", "HarnessError", "HarnessAbort", "SharedValueError", "None"]
 
 
 def plan(tier):
@@ -133,7 +133,7 @@ def plans(draw):
         else:
             k = int(e[1][1:])
             tag = "F%d_" % k + (str(e[2][0]) if e[2] else "")
-        kind = draw(st.sampled_from(KINDS[:5]))
+        kind = draw(st.sampled_from(KINDS[:6]))
         pre = draw(st.integers(0, 3))
         if pre == 0:
             hist.append(["clear_all_model"])
